@@ -1,0 +1,154 @@
+//go:build verif
+
+// Exported wrappers around the unexported SIG encoder, ingress worker and frame
+// buffer pool, for the runtime-monitoring harness in /verif (hook H5). Compiled
+// only with -tags verif. Adds no behaviour: every wrapper forwards to the code
+// the gateway itself runs (sender.run / IngressServer.read / dispatch).
+
+package dataplane
+
+import (
+	"context"
+	"io"
+	"net"
+
+	"github.com/scionproto/scion/pkg/addr"
+	"github.com/scionproto/scion/pkg/snet"
+	"github.com/scionproto/scion/private/ringbuf"
+)
+
+// Constants the harness needs to describe what it observed (never used by the
+// harness to compute an expectation of the packet stream).
+const (
+	VerifMinMTU            = minMTU
+	VerifHdrLen            = hdrLen
+	VerifReassemblyListCap = reassemblyListCap
+	VerifFreeFramesCap     = freeFramesCap
+	VerifPktRingSize       = ringSize
+)
+
+// VerifEncoder wraps the egress encoder of one sender.
+type VerifEncoder struct{ e *encoder }
+
+// VerifNewEncoder is newEncoder; mtu is the maximum frame size including the
+// SIG header, as computed by newSender (which refuses mtu < VerifMinMTU).
+func VerifNewEncoder(sessionID uint8, streamID uint32, mtu uint16) *VerifEncoder {
+	return &VerifEncoder{e: newEncoder(sessionID, streamID, mtu)}
+}
+
+// Write is encoder.Write (a non-blocking write into the packet ring) that
+// additionally reports whether the ring took the packet: 1 accepted, 0 ring
+// full (packet dropped), -1 closed.
+func (v *VerifEncoder) Write(pkt []byte) int { return v.e.ring.Write(pkt, false) }
+
+// WriteDiscard is encoder.Write exactly as sender.Write calls it.
+func (v *VerifEncoder) WriteDiscard(pkt []byte) { v.e.Write(pkt) }
+
+// Read is encoder.Read. The returned slice is reused by the next Read.
+func (v *VerifEncoder) Read() []byte { return v.e.Read() }
+
+// Close is encoder.Close.
+func (v *VerifEncoder) Close() { v.e.Close() }
+
+// VerifInitFramePool allocates the global frame buffer pool (as the first
+// iteration of IngressServer.read does) so that later users find it set.
+func VerifInitFramePool() {
+	if freeFrames == nil {
+		initFreeFrames()
+	}
+}
+
+// VerifWorker wraps one ingress worker (one remote gateway / session).
+type VerifWorker struct {
+	w   *worker
+	ctx context.Context
+}
+
+// VerifNewWorker is newWorker with a fixed remote address and no metrics. The
+// context used for ProcessFrame is the one worker.Run derives (adjustCtx).
+func VerifNewWorker(sessID uint8, tunIO io.WriteCloser) *VerifWorker {
+	remote := &snet.UDPAddr{
+		IA:   addr.MustParseIA("1-ff00:0:300"),
+		Host: &net.UDPAddr{IP: net.IP{192, 0, 2, 1}, Port: 30056},
+	}
+	w := newWorker(remote, sessID, tunIO, IngressMetrics{})
+	ctx, _ := w.adjustCtx(context.Background())
+	return &VerifWorker{w: w, ctx: ctx}
+}
+
+// verifFrame does what IngressServer.read does with one received datagram:
+// take a frame buffer from the pool, copy the datagram in, apply the length and
+// version filters. Returns nil if the datagram is filtered or, with block
+// false, if the pool is momentarily empty (poolEmpty true).
+func verifFrame(datagram []byte, block bool) (fb *frameBuf, poolEmpty bool) {
+	frames := make(ringbuf.EntryList, 1)
+	if freeFrames == nil {
+		initFreeFrames()
+	}
+	if n, _ := freeFrames.Read(frames, block); n != 1 {
+		return nil, true
+	}
+	frame := frames[0].(*frameBuf)
+	read := copy(frame.raw, datagram)
+	if read < sigHdrSize || frame.raw[0] != 0 {
+		frame.Release()
+		return nil, false
+	}
+	frame.frameLen = read
+	frame.sessId = frame.raw[1]
+	return frame, false
+}
+
+// ProcessFrame hands one received datagram to worker.processFrame on the
+// caller's goroutine. It reports false if no frame buffer was available (the
+// datagram was then not processed at all).
+func (v *VerifWorker) ProcessFrame(datagram []byte) bool {
+	frame, poolEmpty := verifFrame(datagram, false)
+	if frame != nil {
+		v.w.processFrame(v.ctx, frame)
+	}
+	return !poolEmpty
+}
+
+// Run is worker.Run (the worker goroutine's loop reading from worker.Ring).
+func (v *VerifWorker) Run() { v.w.Run(context.Background()) }
+
+// Dispatch queues one received datagram on worker.Ring as
+// IngressServer.dispatch does, to be processed by Run. Reports false if no
+// frame buffer was available.
+func (v *VerifWorker) Dispatch(datagram []byte) bool {
+	frame, poolEmpty := verifFrame(datagram, false)
+	if frame != nil {
+		v.w.markedForCleanup = false
+		v.w.Ring.Write(ringbuf.EntryList{frame}, true)
+	}
+	return !poolEmpty
+}
+
+// Stop is worker.Stop; Run returns once the queued frames are processed.
+func (v *VerifWorker) Stop() { v.w.Stop() }
+
+// Cleanup is worker.cleanup (normally driven by a one-second wall-clock tick
+// inside Run): lists not used since the previous Cleanup are dropped. Must not
+// be called concurrently with Run or ProcessFrame.
+func (v *VerifWorker) Cleanup() { v.w.cleanup() }
+
+// ReassemblyLists reports the number of reassembly lists (streams) the worker
+// currently tracks and the total number of frames parked in them.
+func (v *VerifWorker) ReassemblyLists() (lists int, frames int) {
+	for _, l := range v.w.rlists {
+		lists++
+		frames += l.entries.Len()
+	}
+	return lists, frames
+}
+
+// ReleaseAll returns every parked frame of the worker to the pool (what
+// cleanup eventually does for an idle worker), so that a finished harness case
+// does not keep pool buffers.
+func (v *VerifWorker) ReleaseAll() {
+	for epoch, l := range v.w.rlists {
+		l.removeAll()
+		delete(v.w.rlists, epoch)
+	}
+}
